@@ -201,6 +201,15 @@ def run_property(spec, tier, seed):
         """the open finding that excuses this case, if any: the case lies in the finding's class and the divergence does
         not start before the point of the history from which the recorded defect can show"""
         for k in open_known:
+            if k.get("class") == "catalog-large-cells" and st.mode == "sql":
+                # recorded B+tree defect that strikes the catalog unpredictably (its rows are large cells): the engine answers
+                # a statement with the distinct error `err:overflowframe`.  Excused only when that answer is where the case
+                # first leaves the reference (or lies before the action the oracle complains about).
+                segs = c.meta.get("impl", "").split(" | ")
+                hits = [i for i, x in enumerate(segs) if x == "err:overflowframe"]
+                if hits and first_div is not None and hits[0] <= first_div:
+                    return k
+                continue
             if spec.known_class(k, c):
                 pos = c.meta.get("class_pos", {}).get(k.get("class"))
                 if pos is not None and first_div is not None and first_div < pos:
